@@ -150,6 +150,11 @@ class Runner:
                     dirs[l] = os.path.join(wd, "o", l)
                 elif dirshape == "nested":
                     dirs[l] = os.path.join("o", "deep", "er", l)
+                elif dirshape == "subcmd":
+                    # directories named like the subcommands / cobra built-ins
+                    dirs[l] = ["format", "compile", "help", "completion", "fin-protoc", "-"][LANGS.index(l)] if l in LANGS else l
+                    if dirs[l] == "-":
+                        dirs[l] = "./-"
                 elif dirshape == "existing":
                     dirs[l] = os.path.join("o", l)
                     os.makedirs(os.path.join(wd, dirs[l]))
@@ -219,7 +224,7 @@ def check_c16(tier):
     rep = Report("C16", tier, "model_checking")
     thorough = tier == "thorough"
     hists = mc_entry(rep)
-    concrete = {"valid1": docs.RICH, "valid2": docs.SECOND, "invalid": invalid_of(docs.RICH)}
+    concrete = {"valid1": docs.RICH, "valid2": docs.SECOND, "invalid": invalid_of(docs.RICH), "special": docs.SPECIAL}
     with Scratch() as tmp:
         R = Runner(tmp)
         jobs = []
@@ -230,11 +235,11 @@ def check_c16(tier):
         import itertools
         subsets = [c for k in (1, 2, 6) for c in itertools.combinations(LANGS, k)] if not thorough else \
                   [c for k in range(1, 7) for c in itertools.combinations(LANGS, k)]
-        for name in ("valid1", "valid2"):
-            for i, sub in enumerate(subsets):
+        for name in ("valid1", "valid2", "special"):
+            for i, sub in enumerate(subsets if name != "special" else subsets[::5]):
                 for word in (False, True):
-                    shape = ["rel", "abs", "nested", "existing"][(i + int(word)) % 4] if not thorough else None
-                    for sh in ([shape] if shape else ["rel", "abs", "nested", "existing"]):
+                    shape = ["rel", "abs", "nested", "existing", "subcmd"][(i + int(word)) % 5] if not thorough else None
+                    for sh in ([shape] if shape else ["rel", "abs", "nested", "existing", "subcmd"]):
                         jobs.append(("compile", (name, sub, word, sh)))
         # 3. format entry points on more texts: comment variants and invalid mutations
         extra = []
@@ -248,6 +253,8 @@ def check_c16(tier):
             for b in braces[:: (3 if not thorough else 1)]:
                 extra.append(("%s#drop@%d" % (name, b.line), text[:b.pos] + " " + text[b.pos + 1:]))
         extra.append(("minimal", docs.MINIMAL))
+        extra.append(("special", docs.SPECIAL))
+        extra.append(("special-relaid", dsltok.relayout(docs.SPECIAL, "fewlines", 1)))
         for label, t in extra:
             jobs.append(("fmt3", (label, t)))
 
@@ -306,7 +313,7 @@ def check_c16(tier):
                         "'prints exactly' = the result followed by the single newline a line-oriented CLI adds",
                         "'nowhere else' is observed by listing an otherwise empty working directory (HOME and TMPDIR redirected into it)"]
     return rep.finish("all %d call histories of Entry.tla (<= 2 calls) on concrete texts; compile x target subsets x {with, without the word} x "
-                      "{relative, absolute, nested, pre-existing} directories; format -d / -f / library on comment variants and invalid texts; "
+                      "{relative, absolute, nested, pre-existing, named-like-a-subcommand} directories; format -d / -f / library on comment variants and invalid texts; "
                       "distinct = (entry point, group, text, outcome)" % len(hists), extra={"events": len(events)})
 
 
